@@ -119,3 +119,8 @@ def run(repo: Repo, rep: Report, tier: str) -> None:
     from ..core import module_const
     wc = module_const(repo, pw.module, "WIRE_COLORS")
     rep.check(tuple(wc) == ("red", "green"), "C12-R3", "exactly two wire colours", str(wc), pw.module.rel + ":1")
+
+    # ---------------- R4 ---------------------------------------------------------------
+    rep.rule("C12-R4", "optimising one memory cell re-points only that cell's reads (the feedback rewrite walks the table of all reads)")
+    from .shared import reads_repointed_only_for_own_cell
+    reads_repointed_only_for_own_cell(repo, rep, "C12-R4")
